@@ -155,6 +155,7 @@ def run(ck):
     ck.rule('R4.1', 'None from a builder is diagnosed, deferred by design, or a reviewed nothing-to-diagnose source')
     ck.rule('R4.1u', 'a value obtained by evaluating bindings is consumed on every path')
     ck.rule('R4.1c', 'signal callbacks found by the binding scan are never discarded')
+    ck.rule('R4.1d', 'no uigen function result is thrown away and the code-generation pass skips no object')
     ck.rule('R4.2', 'bindings that were not embedded are selected for code generation or rejected')
     ck.rule('R4.3', 'every pseudo property excluded from generic handling has a handler')
     ck.rule('R4.4', 'diagnosed sources write nothing and exit non-zero')
@@ -317,6 +318,47 @@ def run(ck):
             else:
                 ck.ob('R4.1u', key, True, L.loc(c), 'consumed as an operand of %s' % pk, nontrivial=False, fn=fn['path'])
     ck.floor('R4.1u', n_use, 40, 'uses of binding-evaluating functions')
+
+    # ---- R4.1d nothing a uigen function computes is thrown away; every object reaches both passes ------------------------
+    n_let = 0
+    n_disc = 0
+    for fn in L.fn_list:
+        if not (fn['path'].startswith('uigen::') or '<uigen::' in fn['path']):
+            continue
+        if fn.get('x') in ('derive',):
+            continue
+        for n in walk(fn['body']):
+            if n.get('k') == 'Let' and n.get('init') is not None:
+                init = H.strip_refs(n['init'])
+                if init.get('k') == 'Try':
+                    init = H.strip_refs(init['e'])
+                if init.get('k') in ('Call', 'MCall') and (H.callee(init) or '') in L.fns:
+                    n_let += 1
+                    wilds = [x for x in walk(n['pat']) if x.get('k') == 'Wild']
+                    unused = [b for b in H.pat_bindings(n['pat']) if b['name'].startswith('_') and b['name'] != '_']
+                    if wilds or unused:
+                        n_disc += 1
+                        ck.ob('R4.1d', 'discarded-result|%s|%s' % (short(fn['path']), short(H.callee(init))), False, L.loc(n),
+                              '`let %s = %s`: part of what %s computed from the bindings is thrown away; bindings it evaluated count as handled although their values go nowhere' %
+                              (pp(n['pat'], maxlen=30), pp(init, maxlen=50), short(H.callee(init))), fn=fn['path'])
+            if n.get('k') == 'Block':
+                for st in n.get('stmts', []):
+                    if st.get('k') == 'Semi':
+                        e = H.strip_refs(st['e'])
+                        if e.get('k') in ('Call', 'MCall') and (H.callee(e) or '') in L.fns and (L.ty(e) or '()') not in ('()', '!'):
+                            n_disc += 1
+                            ck.ob('R4.1d', 'discarded-result|%s|%s' % (short(fn['path']), short(H.callee(e))), False, L.loc(st),
+                                  '`%s;` drops the %s it returns' % (pp(e, maxlen=50), (L.ty(e) or '')[:50]), fn=fn['path'])
+    ck.floor('R4.1d', n_let, 60, 'let-bound results of crate functions in uigen')
+    ck.ob('R4.1d', 'no-discarded-results-in-uigen', n_disc == 0, '', '%d let-bound crate-function results inspected, %d discarded' % (n_let, n_disc), nontrivial=False)
+    ub = next((f for f in L.fn_list if f['path'].endswith('uigen::binding::UiSupportCode::build')), None)
+    if ub is not None:
+        lp = next((n for n in walk(ub['body']) if n.get('k') == 'For' and 'flat_iter()' in pp(n['iter'], maxlen=200)), None)
+        skips = [x['k'] for x in walk(lp['body'], enter_closures=False) if x.get('k') in ('Continue', 'Break')] if lp else ['no loop']
+        filt = [m.get('m') for m in walk(lp['iter']) if m.get('k') == 'MCall' and m.get('m') in ('filter', 'skip', 'take', 'step_by', 'skip_while', 'take_while', 'filter_map')] if lp else []
+        ck.ob('R4.1d', 'support-pass-visits-every-object', not skips and not filt, L.loc(lp) if lp else L.loc(ub['body']),
+              'for (obj_node, code_map) in all objects: no object is skipped' if not skips and not filt else
+              'the code-generation pass skips objects (%s): a dynamic binding on a skipped object is neither generated nor diagnosed (the "not readable/writable" errors are raised only here)' % (skips + filt), fn=ub['path'])
 
     # ---- R4.1c callbacks never discarded ------------------------------------------------------------
     n_cb = 0
